@@ -78,6 +78,13 @@ NxLinkedBlocks ==
     "FORMAT", "DATATYPE", "=", "DNA", ";", "MATRIX", "a", "AC", "c", "GT", ";", "END", ";",
     "BEGIN", "TREES", ";", "LINK", "TAXA", "=", "x", ";", "TREE", "t", "=", "(", "a", ",", "b", ")", ";", "END", ";",
     "BEGIN", "TREES", ";", "LINK", "TAXA", "=", "y", ";", "TREE", "u", "=", "(", "a", ",", "c", ")", ";", "END", ";">>
+\* NTAX declared by the TAXA block and again, with the same value, by each of two CHARACTERS blocks
+NxNtaxTwice ==
+  <<"#NEXUS", "BEGIN", "TAXA", ";", "DIMENSIONS", "NTAX", "=", "2", ";", "TAXLABELS", "a", "b", ";", "END", ";",
+    "BEGIN", "CHARACTERS", ";", "DIMENSIONS", "NTAX", "=", "2", "NCHAR", "=", "2", ";", "FORMAT", "DATATYPE", "=", "DNA", ";",
+    "MATRIX", "a", "AC", "b", "GT", ";", "END", ";",
+    "BEGIN", "CHARACTERS", ";", "DIMENSIONS", "NTAX", "=", "2", "NCHAR", "=", "2", ";", "FORMAT", "DATATYPE", "=", "DNA", ";",
+    "MATRIX", "a", "GT", "b", "AC", ";", "END", ";">>
 NxMultistate ==
   <<"#NEXUS", "BEGIN", "DATA", ";", "DIMENSIONS", "NTAX", "=", "2", "NCHAR", "=", "4", ";",
     "FORMAT", "DATATYPE", "=", "DNA", "MATCHCHAR", "=", ".", ";",
@@ -97,6 +104,9 @@ PhSeqCont    == <<"2", "6", EOL, "a", "ACG", EOL, "TTT", EOL, "b", "ACG", EOL, "
 PhStrict     == <<"2", "4", EOL, "taxon0000a", "ACGT", EOL, "taxon0000b", "ACGT", EOL>>
 PhInterleave == <<"2", "4", EOL, "a", "AC", EOL, "b", "AC", EOL, EOL, "GT", EOL, "GT", EOL>>
 
+PhContSeq   == <<"2", "2", EOL, "a", "1.5", "2", EOL, "b", "3", "4.25", EOL>>
+PhContInter == <<"2", "4", EOL, "a", "1.5", "2", EOL, "b", "3", "4.25", EOL, EOL, "1", "2", EOL, "3", "4", EOL>>
+
 FaTwo == <<">a", EOL, "ACGT", EOL, ">b", EOL, "AC", EOL, "GT", EOL>>
 FaGap == <<EOL, ">a", EOL, "ACGT", EOL, EOL, ">b", EOL, "TT", EOL>>
 
@@ -115,6 +125,7 @@ AllDocs == <<
     Doc("NxUnknownQuoted", "nexus", NxUnknownQuoted, "dna", FALSE, FALSE),
     Doc("NxContInterleaved", "nexus", NxContInterleaved, "continuous", FALSE, FALSE),
     Doc("NxLinkedBlocks", "nexus", NxLinkedBlocks, "dna", FALSE, FALSE),
+    Doc("NxNtaxTwice", "nexus", NxNtaxTwice, "dna", FALSE, FALSE),
     Doc("NxMultistate", "nexus", NxMultistate, "dna", FALSE, FALSE),
     Doc("NxAnnotated", "nexus", NxAnnotated, "dna", FALSE, FALSE),
     Doc("NwAnnotated", "newick", NwAnnotated, "dna", FALSE, FALSE),
@@ -125,6 +136,8 @@ AllDocs == <<
     Doc("PhSeqCont", "phylip", PhSeqCont, "dna", FALSE, FALSE),
     Doc("PhStrict", "phylip", PhStrict, "dna", TRUE, FALSE),
     Doc("PhInterleave", "phylip", PhInterleave, "dna", FALSE, TRUE),
+    Doc("PhContSeq", "phylip", PhContSeq, "continuous", FALSE, FALSE),
+    Doc("PhContInter", "phylip", PhContInter, "continuous", FALSE, TRUE),
     Doc("FaTwo", "fasta", FaTwo, "dna", FALSE, FALSE),
     Doc("FaGap", "fasta", FaGap, "dna", FALSE, FALSE) >>
 DocIdx(fam) == {i \in 1..Len(AllDocs) : AllDocs[i].fam = fam}
@@ -151,7 +164,7 @@ LineOptionRows == <<
     LineOpt(TRUE,  FALSE, FALSE, TRUE,  "protein"),
     LineOpt(FALSE, TRUE,  TRUE,  FALSE, "dna"),
     LineOpt(TRUE,  TRUE,  FALSE, FALSE, "rna"),
-    LineOpt(FALSE, FALSE, TRUE,  TRUE,  "protein"),
+    LineOpt(FALSE, FALSE, TRUE,  TRUE,  "continuous"),
     LineOpt(FALSE, TRUE,  FALSE, TRUE,  "standard") >>
 
 \* ------------------------------------------------------------------ edit alphabets
@@ -161,7 +174,7 @@ ClassReps(fam) ==
                             "[&k=1]", "[&k= ]", "[&k=]", "[&=1]", "[&k]", "[&k={1,2}]", "[&&NHX:a=1:b= ]", "[&W 1/2]"}
       [] fam = "newick" -> {";", ",", "(", ")", ":", "a", "3", "[c]", "'q w'", "=", "'", "[",
                             "[&k=1]", "[&k= ]", "[&k=]", "[&=1]", "[&k]", "[&k={1,2}]", "[&&NHX:a=1:b= ]", "[&W 1/2]"}
-      [] fam = "phylip" -> {EOL, "a", "3", "ACGT", "AC", "x?"}
+      [] fam = "phylip" -> {EOL, "a", "3", "ACGT", "AC", "x?", "1.5"}
       [] fam = "fasta"  -> {EOL, ">a", ">c", "ACGT", "x?"}
 Keywords(fam) ==
     IF fam = "nexus" THEN {"#NEXUS", "BEGIN", "END", "ENDBLOCK", "TAXA", "CHARACTERS", "DATA", "TREES", "SETS", "TITLE", "LINK",
@@ -237,15 +250,24 @@ DeclIdx(s, kw) == {i \in 1..(Len(s) - 2) : s[i] = kw /\ s[i + 1] = "=" /\ IsNum(
 \* rows of a matrix: the library's own test data has matrices with fewer rows than their TAXA
 \* block has taxa).  -1 unless there is exactly one MATRIX statement and exactly one declaration.
 MaxOf(S) == CHOOSE k \in S : \A j \in S : k >= j
-Declared(toks, kw) ==
+\* positions of the MATRIX statements, in document order
+RECURSIVE SortedSeq(_)
+SortedSeq(S) == IF S = {} THEN <<>> ELSE LET m == CHOOSE k \in S : \A j \in S : k <= j IN <<m>> \o SortedSeq(S \ {m})
+MatrixPositions(toks) == LET s == Sig(toks) IN SortedSeq({i \in 1..Len(s) : s[i] = "MATRIX"})
+\* the value kw declares for the MATRIX statement at position m of Sig(toks): -1 unless declared exactly once in its block
+DeclaredAt(toks, m, kw) ==
     LET s == Sig(toks)
-        M == {i \in 1..Len(s) : s[i] = "MATRIX"}
-    IN IF Cardinality(M) # 1 THEN -1
-       ELSE LET m == CHOOSE i \in M : TRUE
-                B == {i \in 1..m : s[i] = "BEGIN"}
-                b == IF B = {} THEN 0 ELSE MaxOf(B)
-                I == {i \in DeclIdx(s, kw) : i > b /\ i < m}
-            IN IF Cardinality(I) = 1 THEN NumVal(s[(CHOOSE i \in I : TRUE) + 2]) ELSE -1
+        B == {i \in 1..m : s[i] = "BEGIN"}
+        b == IF B = {} THEN 0 ELSE MaxOf(B)
+        I == {i \in DeclIdx(s, kw) : i > b /\ i < m}
+    IN IF Cardinality(I) = 1 THEN NumVal(s[(CHOOSE i \in I : TRUE) + 2]) ELSE -1
+\* declarations for the k-th returned matrix when n matrices were returned: the document's MATRIX
+\* statements in order if there are exactly n of them; a single returned matrix of a document with
+\* several statements (CharacterMatrix.get) is the first one; otherwise nothing is declared
+DeclaredFor(toks, k, n, kw) ==
+    LET P == MatrixPositions(toks)
+    IN IF Len(P) = n \/ (n = 1 /\ k = 1 /\ Len(P) >= 1) THEN DeclaredAt(toks, P[k], kw) ELSE -1
+Declared(toks, kw) == DeclaredFor(toks, 1, 1, kw)
 PhylipDeclared(toks) == IF Len(toks) >= 3 /\ IsNum(toks[1]) /\ IsNum(toks[2]) /\ toks[3] = EOL
                         THEN <<NumVal(toks[1]), NumVal(toks[2])>> ELSE <<-1, -1>>
 =============================================================================
